@@ -79,7 +79,7 @@ package middleware
 //@   panics-ensures panicked(H, old(calls(H))) [only-the-handler-panics]
 
 //@ func NewThrottle
-//@   requires count != 0
+//@   requires count != 0 && duration / count > 0
 //@   ensures result != nil [constructed]
 
 //@ func (CircuitBreaker).Middleware$1
